@@ -733,6 +733,12 @@ void swap_assign_entry()
           what = "move assignment a = std::move(b), then b = a";
           a = std::move(b);
           b = std::as_const(a);
+          {
+            // a grid move-assigned to ITSELF (what v[w++] = std::move(v[r]) does while w == r) is what it was
+            G &self = a;
+            a = std::move(self);
+            VF_COUNT("grid/self-move-assign");
+          }
           break;
         }
         std::string const w = std::string(what) + " with sizes " + show(s1) + " and " + show(s2);
